@@ -4,17 +4,6 @@
 #endif
 
 
-const uint64_t *g_sxV, *g_sxP;   /* ghost traces of the positional value (contracts/sx.h) */
-
-/* the traces are arbitrary in the proof (the contract quantifies over them);
- * the native replay does not evaluate the quantified clause and checks the
- * value against spec_sx_value() instead */
-#define SX_TRACES() \
-  uint64_t *trV = malloc((SX_DMAX + 1) * sizeof(uint64_t)); \
-  uint64_t *trP = malloc((SX_DMAX + 1) * sizeof(uint64_t)); \
-  ASSUME(trV != NULL && trP != NULL); \
-  g_sxV = trV; g_sxP = trP;
-
 /* base target of the static-state invariants: a plain harness (no dfcc), the
  * statics have the values of their initialisers */
 void h_static_tables(void)
@@ -116,7 +105,6 @@ void h_parse_integer_(void)
   SX_INPUT()
   IN(int, in_hex)
   ASSUME(in_i < in_n);
-  SX_TRACES()
   size_t pos = in_i;
   struct sx_node *r = parse_integer_((const char *)in_s, in_n, &pos, in_hex ? 2u : 0u,
                                      in_hex ? isxdigit : isdigit, in_hex ? 16u : 10u);
@@ -127,3 +115,30 @@ void h_parse_integer_(void)
 #endif
   VERIF_CANARY();
 }
+
+/* ---- value of an integer literal (tier B: up to SX_VDIGITS digits, loops
+ * unwound; plain harness, no contracts, the real digit2int and the real
+ * static table).  20 decimal digits cover every value below 2^64 and the
+ * first wrapping ones; 16 hex digits are all 64-bit patterns. */
+#ifndef SX_VDIGITS
+#define SX_VDIGITS 20
+#endif
+static void sx_integer_value(int hex)
+{
+  const size_t off = hex ? 2u : 0u;
+  IN(size_t, in_n)
+  ASSUME(in_n > off && in_n <= SX_VDIGITS + off);
+  IN_MEM(in_s, in_n)
+  const char *s = (const char *)in_s;
+  if (hex) { ASSUME(s[0] == '#' && s[1] == 'x' && SPEC_SX_ISXDIGIT(s[2])); }
+  else { ASSUME(SPEC_SX_ISDIGIT(s[0])); }
+  size_t pos = 0;
+  struct sx_node *r = hex ? parse_hinteger(s, in_n, &pos) : parse_integer(s, in_n, &pos);
+  if (r != NULL) {
+    CHECK(r->type == SXT_INTEGER, "integer literal yields an integer node");
+    CHECK(r->data.u64 == spec_sx_value(s, off, pos, hex ? 16u : 10u),
+          "value == positional value of the digit run (hex digits in either case), modulo 2^64");
+  }
+}
+void h_integer_value_dec(void) { sx_integer_value(0); VERIF_CANARY(); }
+void h_integer_value_hex(void) { sx_integer_value(1); VERIF_CANARY(); }
